@@ -247,3 +247,19 @@ claim(
     '',
     'effect analysis over mypy types + memo discipline + save/restore path rule',
 )
+
+claim(
+    'C05',
+    'Decided (necessary conditions; the skeleton the laws rest on): (R1) the facts frozen into a SelectorList '
+    '(is_not, is_html) may be defined from the list\'s own parse flags only - the two places where an alternative '
+    '(:dir(), :defined) turns its whole enclosing list HTML-only are genuine defects recorded as known findings, any '
+    'other leak is a violation; (R2) the alternative loop starts each alternative from `match = is_not`, skips '
+    'SelectorNull, and ends with `match = not is_not; break`; (R3) the HTML-only context swap is saved in a local and '
+    'restored on every path of the same activation, no other method writes matcher state, and the list is evaluated '
+    'iff `not is_html or self.is_html`; (R4) :not/:has/:is/:where/:matches are parsed with exactly the flags NOT / '
+    'RELATIVE / FORGIVE / FORGIVE / none on top of PSEUDO|OPEN; (R5) a comma resets every piece of per-alternative '
+    'parser state and the implied universal selector has the same guard at both sites. Not decided: the laws as set '
+    'equalities over all documents.',
+    '',
+    'flag-scope rule + loop-shape rule + save/restore path rule + finite decision table',
+)
